@@ -5,6 +5,7 @@ open RgVerif RgVerif.BufWriter RgVerif.BlockSpec
 /-
 Requests (SEP = hex bytes | none; the empty separator of --heading is `-`)
   c08.par  SEP (blocks hex…)          -> hex   output of search_parallel when the lock order is `blocks`
+  c08.parstats SEP (blocks hex…) TRAILER -> hex  search_parallel with --stats: the trailer goes through bufwtr.print
   c08.seq  SEP TERM (blocks hex…)     -> hex   output of search over `blocks` in traversal order
   c08.join SEP TERM (blocks hex…)     -> hex   contract: non-empty blocks joined by SEP++TERM
   c08.seqb SEP TERM (items (hex 0|1)…)-> hex   search; 1 = the block is a bare `binary file matches` message
@@ -60,6 +61,10 @@ def handle (cmd : String) (args : List Sx) : String :=
     match parseSep sep, parseBlocks bl with
     | some sep, some bl => toHex (outPar sep bl)
     | _, _ => "bad-op"
+  | "c08.parstats", [sep, bl, tr] =>
+    match parseSep sep, parseBlocks bl, tr.bytes? with
+    | some sep, some bl, some tr => toHex (outParStats sep bl tr)
+    | _, _, _ => "bad-op"
   | "c08.seq", [sep, term, bl] =>
     match parseSep sep, term.bytes?, parseBlocks bl with
     | some sep, some term, some bl => toHex (outSeq sep term bl)
